@@ -56,10 +56,7 @@ def new_helpers(js):
         if f.get("vis") == "Public" or f.get("impl_trait"):
             continue
         sig = _sig(f)
-        # a vanished function of the same impl with the same signature: a rename, not an extraction
-        ren = [s for s, v in vanished.items() if v[0] == sig[0] and v[1] == sig[1] and tuple(v[2]) == sig[2]]
-        if ren:
-            continue
+        # (plain renames were mapped back to their reference names before this point: fn_renames)
         # a vanished function of the same module with the same name: a method turned into a free function (or back)
         name = f["name"]
         mod = "::".join(_short(k).split("::")[:2])
@@ -140,6 +137,144 @@ def _reads_local(o, l):
     return False
 
 
+def propagate_moves(f, rounds=4):
+    """Copy propagation for values handed on by move: `L = move P` (both whole locals, L defined only there, P defined
+    at most once or a parameter) makes L the same object under a new name -- typically a by-value parameter of a
+    spliced-in helper (`fn forward(mut m: Message)` called as `forward(m)`). Every use of L is rewritten to P, so that
+    the rules keep seeing "the received message" rather than an anonymous local. A `copy` is propagated only when the
+    copy is never written to or mutably borrowed afterwards. Returns the number of locals replaced."""
+    body = f["body"]
+    B = body["blocks"]
+    argc = body["arg_count"]
+    total = 0
+    for _ in range(rounds):
+        ndefs, single, partial, mutb = {}, {}, set(), set()
+        for bi, b in enumerate(B):
+            for si, st in enumerate(b["stmts"]):
+                if st["k"] != "assign":
+                    continue
+                pl = st["place"]
+                rv = st["rv"]
+                if "ref" in rv and rv.get("mut"):
+                    mutb.add(rv["ref"]["l"])
+                if "rawptr" in rv:
+                    mutb.add(rv["rawptr"]["l"])
+                if pl["p"]:
+                    partial.add(pl["l"])
+                    continue
+                ndefs[pl["l"]] = ndefs.get(pl["l"], 0) + 1
+                single[pl["l"]] = (bi, si, rv)
+            t = b["term"]
+            if t["k"] == "call" and t.get("dest"):
+                if t["dest"]["p"]:
+                    partial.add(t["dest"]["l"])
+                else:
+                    ndefs[t["dest"]["l"]] = ndefs.get(t["dest"]["l"], 0) + 2
+            if t["k"] == "drop" and isinstance(t.get("place"), dict):
+                pass
+        ren = {}
+        for L, (bi, si, rv) in single.items():
+            if ndefs.get(L) != 1 or L <= argc or "use" not in rv:
+                continue
+            u = rv["use"]
+            mv = u.get("move")
+            cp = u.get("copy")
+            src = mv or cp
+            if src is None or src["p"]:
+                continue
+            P = src["l"]
+            if P == L or P == 0 or ndefs.get(P, 0) > 1 or (P > argc and ndefs.get(P, 0) != 1):
+                continue
+            if body["locals"][L]["ty"] != body["locals"][P]["ty"]:
+                continue
+            if cp is not None and (L in partial or L in mutb):
+                continue
+            if P in ren or L in ren.values():
+                continue
+            ren[L] = (P, bi, si)
+        if not ren:
+            break
+        # drop the assignments, then rename
+        for bi, si in sorted(((bi, si) for _, (_, bi, si) in ren.items()), reverse=True):
+            del B[bi]["stmts"][si]
+
+        def walk(o):
+            if isinstance(o, dict):
+                if "l" in o and "p" in o and isinstance(o.get("p"), list) and isinstance(o.get("l"), int):
+                    if o["l"] in ren:
+                        o["l"] = ren[o["l"]][0]
+                    for pr in o["p"]:
+                        if isinstance(pr, dict) and "index" in pr and pr["index"] in ren:
+                            pr["index"] = ren[pr["index"]][0]
+                    return
+                for v in o.values():
+                    walk(v)
+            elif isinstance(o, list):
+                for v in o:
+                    walk(v)
+        walk(B)
+        total += len(ren)
+    return total
+
+
+def desugar_mem_replace(f):
+    """`old = mem::replace(&mut PLACE, v)` is read as `old = PLACE; PLACE = v` (a plain assignment the who-may-write
+    rules see), when the reference is a temporary taken right there. Returns the number of calls rewritten."""
+    body = f["body"]
+    B = body["blocks"]
+    refdef = {}
+    cnt = {}
+    for b in B:
+        for st in b["stmts"]:
+            if st["k"] == "assign" and not st["place"]["p"]:
+                cnt[st["place"]["l"]] = cnt.get(st["place"]["l"], 0) + 1
+                if "ref" in st["rv"] and st["rv"].get("mut"):
+                    refdef[st["place"]["l"]] = st["rv"]["ref"]
+        t = b["term"]
+        if t["k"] == "call" and t.get("dest") and not t["dest"]["p"]:
+            cnt[t["dest"]["l"]] = cnt.get(t["dest"]["l"], 0) + 1
+    n = 0
+    for b in B:
+        t = b["term"]
+        if t["k"] != "call" or not isinstance(t.get("func"), dict):
+            continue
+        fn = t["func"].get("const", {}).get("fn") if "const" in t["func"] else None
+        if not fn or _short(fn.get("path", "")) != "core::mem::replace" or len(t["args"]) != 2 or t.get("target") is None:
+            continue
+        r = t["args"][0].get("move") or t["args"][0].get("copy")
+        if r is None or r["p"] or cnt.get(r["l"]) != 1 or r["l"] not in refdef:
+            continue
+        place = copy.deepcopy(refdef[r["l"]])
+        for _ in range(4):   # `&mut *(&mut X)`: look through reborrows of temporaries
+            if place["p"] and place["p"][0] == "*" and place["l"] in refdef and cnt.get(place["l"]) == 1:
+                inner = refdef[place["l"]]
+                place = {"l": inner["l"], "p": copy.deepcopy(inner["p"]) + place["p"][1:]}
+            else:
+                break
+        b["stmts"].append({"k": "assign", "place": copy.deepcopy(t["dest"]), "rv": {"use": {"copy": copy.deepcopy(place)}}, "s": t["s"]})
+        b["stmts"].append({"k": "assign", "place": place, "rv": {"use": copy.deepcopy(t["args"][1])}, "s": t["s"]})
+        b["term"] = {"k": "goto", "target": t["target"], "s": t["s"]}
+        n += 1
+    return n
+
+
+ENUM_DISCR = {("core::option::Option", "None"): 0, ("core::option::Option", "Some"): 1,
+              ("core::result::Result", "Ok"): 0, ("core::result::Result", "Err"): 1}
+
+
+def set_enums(adts):
+    """variant -> discriminant of every enum of the analysed crates (for selector recognition and switch folding)"""
+    for name, a in adts.items():
+        if a.get("kind") == "enum":
+            for v in a.get("variants", []):
+                if v.get("discr") is not None:
+                    ENUM_DISCR[(name, v["name"])] = v["discr"]
+
+
+def _is_enum_agg(rv):
+    return rv.get("agg") == "adt" and (rv.get("adt"), rv.get("variant")) in ENUM_DISCR
+
+
 def fold_constant_switches(f):
     """Constant propagation through spliced-in parameters: a helper taking a flag (`fn answer(m, reject: bool)`) called
     with a literal is read, at that call site, as the branch the literal selects. A `switchInt` on a local whose only
@@ -174,6 +309,21 @@ def fold_constant_switches(f):
         if t["k"] == "call" and t.get("dest"):
             ndefs[t["dest"]["l"]] = ndefs.get(t["dest"]["l"], 0) + 2
     argc = body["arg_count"]
+    # locals holding an enum variant built in place (single definition), and the discriminant reads of them
+    vdef = {}
+    for b in B:
+        for st in b["stmts"]:
+            if st["k"] == "assign" and not st["place"]["p"] and _is_enum_agg(st["rv"]):
+                vdef[st["place"]["l"]] = ENUM_DISCR[(st["rv"]["adt"], st["rv"]["variant"])]
+    for b in B:
+        for st in b["stmts"]:
+            if st["k"] == "assign" and not st["place"]["p"] and "discr" in st["rv"]:
+                src = st["rv"]["discr"]
+                sl = src["l"]
+                if not src["p"] and sl in vdef and ndefs.get(sl) == 1 and sl not in mutref and sl > argc:
+                    cdef[st["place"]["l"]] = vdef[sl]
+                elif not src["p"] and sl in copyof and ndefs.get(sl) == 1 and copyof[sl] in vdef and ndefs.get(copyof[sl]) == 1 and copyof[sl] not in mutref and copyof[sl] > argc and sl not in mutref:
+                    cdef[st["place"]["l"]] = vdef[copyof[sl]]
     const = {l: v for l, v in cdef.items() if ndefs.get(l) == 1 and l not in mutref and l > argc}
     for _ in range(4):
         for l, srcl in copyof.items():
@@ -230,7 +380,7 @@ def _selector_rv(B, rv, depth=0):
             return bool(ds) and all(_selector_rv(B, d, depth + 1) for d in ds)
         return False
     if rv.get("agg") == "adt":
-        return rv.get("adt") in ("core::option::Option", "core::result::Result") or not rv.get("ops")
+        return rv.get("adt") in ("core::option::Option", "core::result::Result") or not rv.get("ops") or _is_enum_agg(rv)
     return False
 
 
@@ -350,9 +500,19 @@ def fn_renames(js):
         sig = _sig(f)
         par = s.rsplit("::", 1)[0]
         cands = [o for o, v in vanished.items() if o.rsplit("::", 1)[0] == par and v[0] == sig[0] and v[1] == sig[1] and tuple(v[2]) == sig[2]]
+        ft = _features(f)
         if len(cands) > 1:
-            ft = _features(f)
             cands = [o for o in cands if len(vanished[o]) > 3 and vanished[o][3] == ft]
+        elif len(cands) == 1 and len(vanished[cands[0]]) > 3:
+            # a lone candidate must still look like the vanished body (a renamed function, possibly lightly edited):
+            # a new function that merely shares a common signature such as `(&mut self) -> bool` is not a rename
+            rf = vanished[cands[0]][3]
+            a, b = set(rf[1]), set(ft[1])
+            jac = 1.0 if not a and not b else len(a & b) / float(len(a | b))
+            if jac < 0.5 or abs(rf[0] - ft[0]) > max(2, 0.34 * max(rf[0], ft[0])):
+                cands = []
+        if not cands and False:
+            pass
         if not cands:
             # same receiver and parameters, another return type, and a body that still does what the vanished one
             # did (most of its outside calls): the function that took the role over (`-> Option<Message>` for the
